@@ -32,7 +32,7 @@ NUMBERS = ["0", "1", "7", "42", "255", "0x1F", "0xffff", "017", "1b", "101b", "1
            "1_000", "1.5", "2.", "'a'", "'\\n'", "'\\0'", "$", "65535", "0x7fffffffffffffff", "4294967296"]
 REGS = ["r0", "r5", "r15", "sp", "a0", "x1", "@r4+", "#5", "#lab", "&0x200", "2(r5)", "[r1]", "(r2)+"]
 STRINGS = ['"ab"', '"a,b"', '"(x"', '"y)"', '"a;b"', '"q\\"r"', '"\\\\"', '"t\\tu"', '"é"', '"\xff"', '""', '" s p "',
-           '"a//b"', '"/*"', "','", "'('", '"it\'s"']
+           '"a//b"', '"/*"', "','", "'('", '"it\'s"', "'\"'", "'\"', \"'\""]
 
 
 def ident(rng, pool):
@@ -292,7 +292,11 @@ def subst_words(body, params, args):
 # Wrapped programs and their hand expansion (the `prog` oracle)
 # ---------------------------------------------------------------------------------------------
 
-PIECE = re.compile(r'"(?:[^"\\]|\\.)*"|[A-Za-z_][A-Za-z0-9_]*|[0-9][A-Za-z0-9_]*')
+PIECE = re.compile(r"""'(?:[^'\\]|\\.)'|"(?:[^"\\]|\\.)*"|[A-Za-z_][A-Za-z0-9_]*|[0-9][A-Za-z0-9_]*""")
+# data statements with literals that are hard for an argument collector (quotes inside ticks, commas and
+# parentheses inside quotes); no ';' or tab inside literals: those are known findings of their own
+EXTRA_DATA = ["  .db '\"', 1", "  .db \"a,b)\", ',', '('", "  .ascii \"it's\"", "  .db ')', \"(\", 2", "  .db \"q\\\"r\", 3",
+              "  .db '\\'', 4"]
 TRICKY_PARAMS = ["b", "h", "q", "x", "d", "w", "l", "e", "b1", "_p", "p_", "a"]
 
 
@@ -365,6 +369,8 @@ def pick_piece(rng, line, token=False):
         if not balanced(text):
             continue
         if token:
+            if "\\" in text:
+                continue      # a backslash in a .define text is a line continuation (known finding define-backslash)
             before = line[s - 1] if s > 0 else " "
             after = line[e] if e < len(line) else " "
             if before in "$./'\\" or after in ":./'":
@@ -428,7 +434,7 @@ def wrap_chunk(rng, chunk, names, kind, incs):
             if len(body) != 1 or not params:
                 return chunk, chunk, "none"
             head, ops = split_stmt(body[0])
-            if not ops.strip():
+            if not ops.strip() or "\\" in ops:
                 return chunk, chunk, "none"
             d = "%s %s(%s) %s" % (rng.choice([".define", "#define"]), name, ",".join(params), ops.strip())
             call = "%s(%s)" % (name, rng.choice([",", ", "]).join(equivalent_arg(rng, a) for a in args))
@@ -463,6 +469,48 @@ def wrap_chunk(rng, chunk, names, kind, incs):
             inner_args = [sub_words_str(q, oparams, [a.lstrip(" \t") for a in callargs]) for q in oparams]
             el = [sub_words_str(l, params, inner_args) for l in body]
         return wl, el, kind + ":%d" % len(params)
+    if kind == "defmacro":
+        # a define / equ name used inside a macro body (the character after the name is ungot
+        # below the mark of the define and must be read after its text, inside the outer text)
+        w1, e1, t1 = wrap_chunk(rng, chunk, names, rng.choice(["define", "hashdefine", "equ", "dotequ"]), incs)
+        if t1 == "none":
+            return chunk, chunk, "none"
+        heads = [l for l in w1 if l not in e1 and re.match(r"\s*(\.define|#define|\.equ|\.def)\b|^\S+ equ ", l)]
+        if len(heads) != 1:
+            return chunk, chunk, "none"
+        head = heads[0]
+        stm = [l for l in w1 if l is not head]
+        m = re.match(r"\s*(?:\.define|#define)\s+(\S+) (.*)$|^(\S+) equ (.*)$|\s*(?:\.equ|\.def) (\S+) = (.*)$", head)
+        name = m.group(1) or m.group(3) or m.group(5)
+        w2, e2, t2 = wrap_chunk(rng, stm, names, rng.choice(["macro", "macro2", "nested"]), incs)
+        orig = dict((a, b) for a, b in zip(stm, chunk))
+        # hand expansion: parameters first, then the define name (a fresh word) by its text
+        text = None
+        for a, b in zip(stm, chunk):
+            if a != b:
+                i = a.index(name)
+                text = b[i:len(b) - (len(a) - i - len(name))]
+        if text is None:
+            return chunk, chunk, "none"
+        e2x = [sub_words_str(l, [name], [text]) for l in e2]
+        return [head] + w2, e2x, "defmacro"
+    if kind == "callarg":
+        # a call whose argument is itself a call: the inner commas are inside parentheses
+        picks = [(k, pick_piece(rng, l, token=True)) for k, l in enumerate(chunk)]
+        picks = [(k, pp) for k, pp in picks if pp and re.fullmatch(r"[0-9]+", pp[2])]
+        if not picks:
+            return chunk, chunk, "none"
+        k, (s, e, text) = rng.choice(picks)
+        za, zb = names.fresh("ZA"), names.fresh("ZB")
+        p1, p2, p3 = names.fresh("zp"), names.fresh("zp"), names.fresh("zp")
+        extra = rng.choice(["0", "(0)", "(1-1)", "0*(2+3)"])
+        defs = ["%s %s(%s,%s) %s+%s" % (rng.choice([".define", "#define"]), za, p1, p2, p1, p2),
+                "%s %s(%s) (%s)" % (rng.choice([".define", "#define"]), zb, p3, p3)]
+        call = "%s(%s(%s%s%s))" % (zb, za, text, rng.choice([",", ", ", " , "]), extra)
+        wl, el = list(chunk), list(chunk)
+        wl[k] = chunk[k][:s] + call + chunk[k][e:]
+        el[k] = chunk[k][:s] + "(%s+%s)" % (text, extra) + chunk[k][e:]
+        return defs + wl, el, "callarg"
     if kind == "include":
         fn = names.fresh("zi") + ".inc"
         incs[fn] = "\n".join(chunk) + rng.choice(["\n", "\n", "\n\n"])
@@ -505,14 +553,16 @@ def split_top(text):
     return out
 
 
-KINDS = ["define", "hashdefine", "equ", "dotequ", "macro", "macro", "macro2", "nested", "definep", "include", "none"]
+KINDS = ["define", "hashdefine", "equ", "dotequ", "macro", "macro", "macro2", "nested", "definep", "callarg", "defmacro", "defmacro", "include", "none"]
 
 
 def wrapped_program(rng, lines):
     """lines: a valid program (first lines select CPU / origin).  Returns dict with the wrapped source,
     the hand-expanded source, include files and the list of kinds used."""
     head = [l for l in lines[:2]]
-    body = lines[2:]
+    body = list(lines[2:])
+    for _ in range(rng.choice([0, 1, 1, 2])):
+        body.insert(rng.randrange(len(body) + 1), rng.choice(EXTRA_DATA))
     names = Namer()
     incs = {}
     wl, el, kinds = list(head), list(head), []
